@@ -128,3 +128,36 @@ package logical
 //@   requires [cfg]   model.Param.MaxQN >= 1 && model.Param.MaxQN <= 100 && model.Param.PotentialProposalIndex >= 0 && model.Param.PotentialProposalIndex <= 100 && model.Param.PotentialProposal >= 1 && model.Param.PotentialProposal <= model.Param.PotentialProposalMax && model.Param.PotentialProposalMax <= 1000
 //@   requires [fork]  common.LocalChainConfig.Proposal025Block < 4611686018427387904
 //@   ensures [zero] totalStake == 0 ==> !ok && qn == 0
+//@   ensures [qnrange] ok ==> qn <= 100
+//@   modifies nothing
+
+// ---------------------------------------------------------------------------------------------
+// Block-level check of the proposer's VRF proof (C16): a header is accepted only if the proof it carries (the
+// big-integer prove value, as bytes) is accepted by the VRF for the proposer's key and the message derived from
+// the previous block's random value and the time delta, and the cumulative QN is the previous one plus the
+// proof's QN. The message derivation (iterated hashing) and the delta are abstract functions of their inputs.
+//@ spec abstract fn vrfMsgOf(random Bytes, delta int) Bytes
+//@ spec abstract fn deltaOf(after time.Time, before time.Time) int
+
+//@ func genVrfMsg
+//@   option trusted
+//@   ensures bytes(result) == vrfMsgOf(old(bytes(random)), delta)
+//@   modifies nothing
+
+//@ func CalDeltaByTime
+//@   option trusted
+//@   ensures result == deltaOf(after, before)
+//@   modifies nothing
+
+//@ func verifyBlockVRF
+//@   property C16
+//@   option intmode=math
+//@   requires bh != nil && preBH != nil && castor != nil && bh.ProveValue != nil
+//@   requires stdLogger != nil && max256 != nil && val(max256) > real(0) && rat1 != nil && val(rat1) == real(1)
+//@   requires [stake] totalStake <= 9000000000000000 && (castor.WorkingMiners == 0 || castor.WorkingMiners <= totalStake)
+//@   requires [cfg]   model.Param.MaxQN >= 1 && model.Param.MaxQN <= 100 && model.Param.PotentialProposalIndex >= 0 && model.Param.PotentialProposalIndex <= 100 && model.Param.PotentialProposal >= 1 && model.Param.PotentialProposal <= model.Param.PotentialProposalMax && model.Param.PotentialProposalMax <= 1000
+//@   requires [fork]  common.LocalChainConfig.Proposal025Block < 4611686018427387904
+//@   requires [range] big(bh.ProveValue) >= 0 && preBH.TotalQN <= 4611686018427387904
+//@   ensures [proof] result0 ==> @vrf_accept(bytes(castor.VrfPK), @beenc(big(bh.ProveValue)), vrfMsgOf(bytes(preBH.Random), deltaOf(bh.CurTime, preBH.CurTime)))
+//@   ensures [qn]    result0 ==> bh.TotalQN >= preBH.TotalQN
+//@   ensures [err]   result1 != nil ==> !result0
